@@ -196,3 +196,9 @@ f2!(f2_grow_m16_1k, 16, 1072, OP_GROW, cut);
 f2!(f2_shrink_null_m1_1k, 1, 1072, OP_SHRINK, null);
 f2!(f2_grow_null_m1_1k, 1, 1072, OP_GROW, null);
 f2!(f2_grow_null_m16_1k, 16, 1072, OP_GROW, null);
+// END = 16 KiB (thorough)
+f2!(f2_dealloc_m1_16k, 1, 16432, OP_DEALLOC, cut);
+f2!(f2_shrink_m1_16k, 1, 16432, OP_SHRINK, cut);
+f2!(f2_grow_m1_16k, 1, 16432, OP_GROW, cut);
+f2!(f2_shrink_m16_16k, 16, 16432, OP_SHRINK, cut);
+f2!(f2_grow_m16_16k, 16, 16432, OP_GROW, cut);
